@@ -45,6 +45,9 @@ theorem resets_idle_eq (lastHandled seen : Option Nat) (new : Nat) :
     resetsIdle lastHandled seen new =
       Extracted.resetCond { diffLastHandled := lastHandled != some new, diffSeen := seen.getD new != new } := rfl
 
+/-- `idle_reset_time` is written at exactly these two places, each under the reset condition -/
+theorem stamp_sites_eq : Extracted.stampSites = stampSites := by decide
+
 /-- the idle gate's loop condition and sleep argument -/
 theorem idle_cond_eq (a : GateAtoms) : Extracted.idleCond a = idleCond a := rfl
 theorem idle_delay_eq (a : GateAtoms) : Extracted.idleDelay a = idleDelay a := rfl
